@@ -767,6 +767,15 @@ class Table(Vector):
 		if not target_indices:
 			return # No columns selected, nothing to do
 
+		# A write that cannot be kept local is refused as a whole: ask every target
+		# column before the first one is written, so that an AliasError raised for a
+		# later column does not leave the earlier ones already changed.
+		from .alias_tracker import _ALIAS_TRACKER
+		for col_idx in target_indices:
+			col = self._underlying[col_idx]
+			if col._underlying:
+				_ALIAS_TRACKER.check_writable(col, id(col._underlying))
+
 		# --- 3. Handle Assignment ---
 		
 		# CASE A: Scalar Assignment (Broadcast)
